@@ -1049,4 +1049,18 @@ def rule_sphinx_hook_total(check, rule):
             check.violation(rule, site_of(fi, c), '%s is handed the documented object outside any `except Exception`: binding a method inherited from a C '
                             'type to a dummy instance raises TypeError, and Sphinx drops the member' % norm(c)[:50], key=key,
                             witness="process_signature(app, 'method', 'collections.Counter.get', collections.Counter.get, {}, None, None)")
+    # binding goes through the descriptor protocol: for a property it *runs the getter* on the dummy instance and documents whatever comes
+    # back; only callables are bound
+    from .rules_classes import dominated_by
+    for c in _own_nodes(fi.node):
+        if isinstance(c, ast.Call) and norm(c.func).endswith('safe_get') and c.args and isinstance(c.args[0], ast.Name) and c.args[0].id in objnames:
+            n += 1
+            key = 'sphinx-total|bind-callables-only'
+            arg = c.args[0].id
+            if dominated_by(fi, c, lambda t, p: p and norm(t) == 'callable(%s)' % arg):
+                check.holds(rule, site_of(fi, c), 'the documented object is bound to a dummy instance only when it is callable', key=key)
+            else:
+                check.violation(rule, site_of(fi, c), 'the documented object is bound to a dummy instance whatever it is: for a property this runs the getter '
+                                'on object() and documents what it returns (the signature of a callable the property hands back) instead of leaving '
+                                'the signature alone', key=key, witness='class Account:\n    @property\n    def handler(self): return some_function')
     check.floor(rule, 'operations on the documented object', n, 3)
